@@ -310,7 +310,12 @@ NATIVE_UNITS = {
                     "vouching parameters): Ok <=> vouched /\\ local not before the epoch (ns) /\\ -59900 <= floor-ms(local) - base <= 2990 "
                     "without wrap-around; a constructed value reports its local time; other vouchers are rejected",
                     "66 local times (epoch +- ns/ms, window widths, 2024, calendar limits, 2^k ns and ms with neighbours) x ~70 base times "
-                    "each (window edges, the same modulo 2^32 / 2^63 / 2^64, 0, u64::MAX, i64::MAX)")],
+                    "each (window edges, the same modulo 2^32 / 2^63 / 2^64, 0, u64::MAX, i64::MAX)"),
+         NativeTest("verif_native_now_uses_the_clock_reading", ["C14"], "VouchedTime::now",
+                    "now() applies the same rule to the current clock: with a provider that answers with a (really vouched) base time at "
+                    "a chosen distance from the clock reading it was handed, now() accepts exactly the distances inside the window and the "
+                    "value reports exactly that clock reading (real clock; exact at nanosecond resolution, so no flakiness on correct code)",
+                    "40 readings of the real clock x 9 distances (window edges +-1 ms, 0)")],
         params={"quick": {}, "thorough": {}}),
     "byte_arena": NativeUnit("byte_arena", "owning_iovec",
         [("owning_iovec/src/byte_arena/mod.rs", os.path.join(KN, "byte_arena.rs"))],
